@@ -36,6 +36,9 @@ def env_for(group):
     for k in range(8):
         v = r.choice(VALS) if r.random() < 0.7 else ''.join(r.choice('abcXYZ019 =:{}[]",.-_/\\\'()*&^%#@!~éü') for _ in range(r.randint(0, 12)))
         env['VERIF_V%d' % k] = v
+    # a value containing $ in one of the spellings that a whole-value $env:NAME must hand through verbatim (the spellings of the
+    # recorded findings - $$, $ + lowercase letter - are not used; inside interpolations this variable is not referenced)
+    env['VERIF_W'] = r.choice(['$"{a}"', '$"x"', '$', '$"', 'a$b', '$A', '$1', '$"{$env:VERIF_V0}"', 'x$'])
     return env
 
 
@@ -70,7 +73,7 @@ def gen_case(rng, i, tier):
                         p, n = rng.choice(leaves)
                         parts.append(('path', '.'.join(p), text_of(n)))
                     elif r < 0.8:
-                        name = rng.choice(list(env.keys()))
+                        name = rng.choice([k for k in env.keys() if k != 'VERIF_W'])
                         parts.append(('env', name, env[name]))
                     elif r < 0.86 and repeat:
                         parts.append(('repeat', None, None))
@@ -80,10 +83,10 @@ def gen_case(rng, i, tier):
                         parts.append(('missing-env', rng.choice(['VERIF_UNSET_%d' % rng.randint(0, 9), 'verif_v0', 'Verif_V1', 'VERIF_v2', 'home', 'Path']), None))
             uses.append({'kind': kind, 'parts': parts, 'at': 'u%d' % u, 'wrap': rng.choice([0, 0, 1, 2])})
         elif kind == 'env-value':
-            name = rng.choice(list(env.keys())) if rng.random() < 0.9 else rng.choice(['VERIF_UNSET_X', 'verif_v0', 'Verif_V3'])
+            name = rng.choice(list(env.keys()) + ['VERIF_W'] * 2) if rng.random() < 0.9 else rng.choice(['VERIF_UNSET_X', 'verif_v0', 'Verif_V3'])
             uses.append({'kind': kind, 'name': name, 'at': 'u%d' % u, 'wrap': rng.choice([0, 0, 1, 2])})
         else:
-            name = rng.choice(list(env.keys())) if rng.random() < 0.9 else rng.choice(['VERIF_UNSET_X', 'verif_v0', 'Verif_V3'])
+            name = rng.choice(list(env.keys()) + ['VERIF_W']) if rng.random() < 0.9 else rng.choice(['VERIF_UNSET_X', 'verif_v0', 'Verif_V3'])
             uses.append({'kind': kind, 'name': name, 'at': 'u%d' % u, 'wrap': rng.choice([0, 0, 1, 2])})
     return {'doc': doc, 'uses': uses, 'group': group, 'repeat': repeat, 'cli': i % 61 == 0}
 
@@ -223,6 +226,27 @@ def check_case(ctx, case):
                 if not veq(od.get(k), val):
                     return res.violate('subst', 'unrelated key %s changed' % k, doc=d, env=env)
         res.labels.add('outcome:substituted')
+    if case.get('i', 0) % 64 == 5 and res.verdict == 'held':
+        # the value is the variable's value at the time of the evaluation: the variable changes between evaluations in one process
+        seq = [('set', 'first'), ('set', 'second value'), ('set', ''), ('unset', None), ('set', 'again')]
+        ops = []
+        for k, (what, val) in enumerate(seq):
+            ops.append({'op': 'setenv', 'id': 'VERIF_DYN', 'format': val or '', 'path': 'unset' if what == 'unset' else ''})
+            ops.append({'op': 'merge_doc', 'id': 'dyn', 'data': {'v': '$env:VERIF_DYN', 't': '$"<{$env:VERIF_DYN}>"'}, 'parser': k})
+            ops.append({'op': 'output_docs', 'parser': k})
+        ops.append({'op': 'setenv', 'id': 'VERIF_DYN', 'path': 'unset'})
+        rd = ctx.call(ops, res, worker=w)
+        if rd is None:
+            return res.violate('crash', 'worker died (changing environment)')
+        for k, (what, val) in enumerate(seq):
+            r_ = rd['results'][3 * k + 2]
+            if what == 'unset':
+                if r_['err'] is None:
+                    return res.violate('missing', 'a variable removed from the environment before the evaluation is still substituted', got=r_.get('values'))
+            elif r_['err'] is not None or not veq(r_['values'], [{'v': val, 't': '<%s>' % val}]):
+                return res.violate('subst', '$env:NAME is not the value the variable has when the evaluation runs (variable changed between evaluations in one process)',
+                                   step=k, expect=val, got=r_.get('values'), err=r_['err'])
+        res.ev('environment_changed_between_evaluations')
     if case.get('cli'):
         dd = ctx.casedir()
         with open(os.path.join(dd, 'in.json'), 'w') as f:
